@@ -60,7 +60,8 @@ impl<'a> PrettyPrinter<'a> {
         // NOTE: This is a safe cast. The parentheses for patterns are all optional.
         // For safety, we don't remove parentheses around idents. See `paren-in-key.typ`.
         let expr = parenthesized.expr();
-        let can_omit = (expr.is_literal()
+        // A float written like `1.` would run into a following dot (`(1.).abs()`), so it keeps its parentheses.
+        let can_omit = (expr.is_literal() && !expr.to_untyped().text().ends_with('.')
             || matches!(
                 expr.to_untyped().kind(),
                 SyntaxKind::Array
